@@ -76,6 +76,18 @@ def run_exh(shard, rec, B):
                         if ok:
                             good, obs = _same(B, P, g, p)
                             rec.check("parse.codes.%s.%s" % (nm, kind), good, [cs], nt, expected=O.show(g, p), observed=obs)
+                        # the qubit count given alongside a sequence (what paulis(..., N=N) does for every element) changes nothing
+                        ok, P = rec.attempt("parse.codes.withN", [nm, kind, cs, N], lambda: lib.pauli(obj, N))
+                        if ok:
+                            good, obs = _same(B, P, g, p)
+                            rec.check("parse.codes.withN", good, [nm, kind, cs, N], nt, expected=O.show(g, p), observed=obs)
+                for pre, pp in PREFIX.items():
+                    if pp == p:
+                        for obj in (pre + s, list(pre + s)):
+                            ok, P = rec.attempt("parse.str.withN", [pre + s, N], lambda: lib.pauli(obj, N=N))
+                            if ok:
+                                good, obs = _same(B, P, g, p)
+                                rec.check("parse.str.withN", good, [pre + s, type(obj).__name__, N], nt, expected=O.show(g, p), observed=obs)
                 if B.name == "torch":
                     for nm, cs in variants:
                         t = B.torch.tensor(cs)
@@ -137,6 +149,12 @@ def run_exh(shard, rec, B):
 def _index_exprs(rng, L, negstep=True):
     out = [("int", int(rng.integers(0, L))), ("int", -int(rng.integers(1, L + 1))),
            ("int", np.int64(rng.integers(0, L)))]
+    # a numpy integer scalar of any width is an integer (what iterating over an index array of that dtype yields)
+    for dt in (np.int8, np.uint8, np.int16, np.uint16, np.int32, np.uint32, np.uint64, np.intp):
+        if rng.integers(2):
+            out.append(("int", dt(rng.integers(0, min(L, 127)))))
+    if rng.integers(2):
+        out.append(("int", np.int32(-int(rng.integers(1, L + 1)))))
     a, b = sorted(int(x) for x in rng.integers(0, L + 1, 2))
     out += [("slice", slice(a, b)), ("slice", slice(None, None, 2)), ("slice", slice(a, None)), ("slice", slice(None, b, 3))]
     if negstep:  # torch tensors refuse negative steps (PyTorch limitation, not a property of the port)
@@ -190,7 +208,7 @@ def run_rand(shard, rec, B):
             else:
                 descr.append(B.Pauli(g, p))
         for form, call in (("args", lambda: lib.paulis(*descr)), ("list", lambda: lib.paulis(list(descr))),
-                           ("gen", lambda: lib.paulis(d for d in descr))):
+                           ("gen", lambda: lib.paulis(d for d in descr)), ("withN", lambda: lib.paulis(list(descr), N=N))):
             if form == "args" and L == 1:
                 continue
             ok, Q = rec.attempt("parse.list." + form, case, call)
